@@ -112,12 +112,14 @@ PROPS.update({
     "C12": {
         "modules": _DISPATCH_MODS + ["contracts.client_invoke"],
         "contracts": [_HR, "Pyro5.server.Daemon._handshake", "Pyro5.server.Daemon._sendExceptionResponse#body", "Pyro5.client.Proxy._pyroInvoke"],
+        "groups": [{"modules": ["specs.socket_model", "specs.pystruct", "specs.seqdict", "specs.opaque", "contracts.callcontext"],
+                    "contracts": ["Pyro5.callcontext._CallContext.from_global"]}],
         "harness": ["replay/dispatch.py", "replay/c03.py"],
         "explanation": "at every point where handleRequest runs user code the thread-local context holds this request's connection, sequence number, flags, serializer "
                        "id, annotations and a correlation id set during this request; every message sent by handleRequest, _handshake and _sendExceptionResponse carries only "
                        "daemon annotations plus annotations written during this request (ghost provenance on the annotation dict objects); the response-annotation dict "
                        "left by an earlier request is replaced by a fresh object at the start of every request and handshake (identity, which also cuts the sharing with a "
-                       "oneway thread).",
+                       "oneway thread).  Second contract group: _CallContext.from_global (what a oneway-call thread starts from) overwrites every one of the eight context fields with the snapshot's value - nothing the thread had before survives.",
         "assumptions": _COMMON_ASSUME + ["threading.local gives each thread its own context object", "client side: after _pyroInvoke the thread's response annotations are this reply's annotations or a dict created during this call "
                                          "(never one left by an earlier call), also on failure",
                                          "the oneway thread's to_global/from_global copy is covered by the bounded native harness only"],
